@@ -31,6 +31,12 @@ def run_one(m, tier):
             if src.count(m["old"]) != 1:
                 return m, None, f"pattern occurs {src.count(m['old'])} times", 0
             open(path, "w").write(src.replace(m["old"], m["new"]))
+            for x in m.get("extra", []):
+                path = os.path.join(d, x["file"])
+                src = open(path).read()
+                if src.count(x["old"]) != 1:
+                    return m, None, f"extra pattern occurs {src.count(x['old'])} times", 0
+                open(path, "w").write(src.replace(x["old"], x["new"]))
         env = dict(os.environ, VERIF_REPO=d, PYTHONDONTWRITEBYTECODE="1")
         t0 = time.time()
         cmd = [os.path.join(HERE, "check"), m["property"], "--tier", tier, "--no-evidence"]
